@@ -1,31 +1,15 @@
 // impl_run: drives the real ninja code (compiled from /repo's working tree) on the same case
-// lines the extracted model consumes.  Usage: impl_run <component>  (cases on stdin)
+// lines the extracted model consumes.  Usage: impl_run <component> [args]  (cases on stdin)
 #include "common.h"
-#include "util.h"
 
-int run_canon();
-
-int run_canon() {
-  std::string line;
-  while (std::getline(std::cin, line)) {
-    std::string s = unhex(line);
-    // exact-size heap buffer so that ASan sees any access outside [0,len)
-    size_t len = s.size();
-    char* buf = (char*)malloc(len ? len : 1);
-    memcpy(buf, s.data(), len);
-    uint64_t bits = 0;
-    CanonicalizePath(buf, &len, &bits);
-    std::string out(buf, len);
-    free(buf);
-    printf("%s\n", hex(out).c_str());
-  }
-  return 0;
+std::map<std::string, ComponentFn>& Components() {
+  static std::map<std::string, ComponentFn> m;
+  return m;
 }
 
 int main(int argc, char** argv) {
   if (argc < 2) { fprintf(stderr, "usage: impl_run <component>\n"); return 2; }
-  std::string c = argv[1];
-  if (c == "canon") return run_canon();
-  fprintf(stderr, "unknown component %s\n", c.c_str());
-  return 2;
+  auto it = Components().find(argv[1]);
+  if (it == Components().end()) { fprintf(stderr, "unknown component %s\n", argv[1]); return 2; }
+  return it->second(argc - 2, argv + 2);
 }
